@@ -695,6 +695,10 @@ def classify(case, lang, ent, feats):
     # variables with one is repaired (it gets `d<x>dt = 0`) and judged like any other input
     if feats["no_eq"]:
         return "F-C07-3", True
+    # F-C07-13: a component called like a generated derivative name (d<x>dt): the two assignments to that name overwrite
+    # one another in the emitted function
+    if feats["dname_clash"]:
+        return "F-C07-13", True
     return None, True
 
 
@@ -817,7 +821,7 @@ def judge_phase(ctx, case, R, M, extern=None, tag=""):
     if M is not None:
         # (a variable no reaction changes is inside the hypothesis since the repair of F-C07-12; "no equation at
         # all" = F-C07-3 is not)
-        in_scope = not (feats["dyn_coef"] or feats["no_eq"]) and len(case["content"]["vars"]) > 0
+        in_scope = not (feats["dyn_coef"] or feats["no_eq"] or feats["dname_clash"]) and len(case["content"]["vars"]) > 0
         if M["okC"] != in_scope:
             ctx.add_drift(sub_case(case, "py"), {"in_scope": in_scope}, {"okC": M["okC"]}, "hypothesis okC of C07_equiv_partial")
         ctx.hist["okC_true" if M["okC"] else "okC_false"] = ctx.hist.get("okC_true" if M["okC"] else "okC_false", 0) + 1
@@ -1070,6 +1074,12 @@ CORPUS = [
     {"content": {"vars": [["x", {"v": "1"}], ["y", {"v": "1"}]], "pars": [["k", {"v": "2"}]], "derived": [],
                  "rxns": [["r", {"args": ["x", "k"], "e": ["*", ["a", 0], ["a", 1]], "st": [["x", {"c": "-1"}], ["y", {"c": "1"}]]}]]},
      "free": ["k"], "states": [["0", ["3", "1"], ["3"]]], "stratum": "corpus"},
+    # F-C07-13: a reaction CALLED `dydt` next to the variable y: `dydt = k*x` is overwritten by `dydt = -b` before
+    # `dxdt = -dydt` reads it (model [-3, -6], generated [-3, 3]); Python and Rust (TypeScript rejects the second `let`)
+    {"content": {"vars": [["y", {"v": "1"}], ["x", {"v": "2"}]], "pars": [["k", {"v": "3"}]], "derived": [],
+                 "rxns": [["b", {"args": ["y", "k"], "e": ["*", ["a", 0], ["a", 1]], "st": [["y", {"c": "-1"}]]}],
+                          ["dydt", {"args": ["x", "k"], "e": ["*", ["a", 0], ["a", 1]], "st": [["x", {"c": "-1"}]]}]]},
+     "free": [], "langs": ["py", "rs"], "states": [["0", ["1", "2"], []]], "stratum": "corpus"},
     # a requested free parameter that is no parameter of the model: KeyError (C07_free_parameter_unknown)
     {"content": {"vars": [["x", {"v": "1"}], ["y", {"v": "1"}]], "pars": [["k", {"v": "2"}]], "derived": [],
                  "rxns": [["r", {"args": ["x", "k"], "e": ["*", ["a", 0], ["a", 1]], "st": [["x", {"c": "-1"}], ["y", {"c": "1"}]]}]]},
